@@ -56,7 +56,6 @@ structure ItemOK (cfg : Cfg) (w0 : World) (x : Aid × Act) : Prop where
   move : (MoveCall.move x.1 x.2.move).inSpace w0 = true
   attack : (cfg.which = .teamBattle ∨ cfg.which = .predatorPrey) → (w0.cfgOf x.1).attacking = true →
     inSpace cfg.attack w0 x.1 x.2.attack = true
-  single : (cfg.which = .teamBattle ∨ cfg.which = .predatorPrey) → ∃ k, x.2.attack = .count k ∧ k ≤ 1
 
 /-- the state of a loop: invariant of the world, full ledger -/
 structure PSOK (cfg : Cfg) (w0 : World) (p : PS) : Prop where
@@ -64,20 +63,11 @@ structure PSOK (cfg : Cfg) (w0 : World) (p : PS) : Prop where
   full : LedgerFull cfg w0.n p.r
 
 theorem kill_ok {cfg : Cfg} {w0 : World} (w' : World) (a : Aid) (ha : a < w0.n) (hl : cfg.isLearning a = true)
-    (hall : cfg.which = .teamBattle → ∀ v < w0.n, cfg.isLearning v = true) (hw : cfg.which = .teamBattle ∨ cfg.which = .predatorPrey)
     (r : Ledger) (v : Aid) (hr : LedgerFull cfg w0.n r) (hv : v < w0.n) :
-    ∃ r', (if cfg.which == .predatorPrey then preyKill cfg w' a else teamKill w' a) r v = .ok r' ∧
+    ∃ r', (if cfg.which == .predatorPrey then preyKill cfg w' a else teamKill cfg w' a) r v = .ok r' ∧
       LedgerFull cfg w0.n r' := by
-  rcases hw with hw | hw
-  · have : (cfg.which == Which.predatorPrey) = false := by rw [hw]; decide
-    simp only [this, Bool.false_eq_true, if_false, teamKill]
-    split
-    · obtain ⟨r1, h1, hf1⟩ := accrue_ok hr hv (hall hw v hv) (-100)
-      obtain ⟨r2, h2, hf2⟩ := accrue_ok hf1 ha hl 100
-      exact ⟨r2, by simp only [h1, h2], hf2⟩
-    · exact ⟨r, rfl, hr⟩
-  · have : (cfg.which == Which.predatorPrey) = true := by rw [hw]; decide
-    simp only [this, if_true, preyKill]
+  split
+  · simp only [preyKill]
     split
     · obtain ⟨r1, h1, hf1⟩ := accrue_ok hr ha hl 100
       simp only [h1]
@@ -86,10 +76,18 @@ theorem kill_ok {cfg : Cfg} {w0 : World} (w' : World) (a : Aid) (ha : a < w0.n) 
         exact accrue_ok hf1 hv hlv (-100)
       · exact ⟨r1, rfl, hf1⟩
     · exact ⟨r, rfl, hr⟩
+  · simp only [teamKill]
+    split
+    · by_cases hlv : cfg.isLearning v = true
+      · obtain ⟨r1, h1, hf1⟩ := accrue_ok hr hv hlv (-100)
+        obtain ⟨r2, h2, hf2⟩ := accrue_ok hf1 ha hl 100
+        exact ⟨r2, by simp only [hlv, if_true, h1, h2], hf2⟩
+      · obtain ⟨r2, h2, hf2⟩ := accrue_ok hr ha hl 100
+        exact ⟨r2, by simp only [hlv, Bool.false_eq_true, if_false, h2], hf2⟩
+    · exact ⟨r, rfl, hr⟩
 
 theorem attack1_ok {cfg : Cfg} {w0 : World} (hcfg : CfgOK w0)
     (hw : cfg.which = .teamBattle ∨ cfg.which = .predatorPrey)
-    (hall : cfg.which = .teamBattle → ∀ v < w0.n, cfg.isLearning v = true)
     (p : PS) (x : Aid × Act) (hP : PSOK cfg w0 p) (hx : ItemOK cfg w0 x) :
     ∃ p', attack1 cfg p x = .ok p' ∧ PSOK cfg w0 p' := by
   have hn : p.w.n = w0.n := sframe_n hP.x.frame
@@ -118,22 +116,17 @@ theorem attack1_ok {cfg : Cfg} {w0 : World} (hcfg : CfgOK w0)
         exact (hs.1.1 v hv).1.1
       · refine ⟨false, [], p.w, p.t, by simp [processAttack, hatt], fun _ h => by cases h⟩
     simp only [hp]
-    obtain ⟨k, hk, hk1⟩ := hx.single hw
-    have harr : victimsAreArray x.2.attack H = false := by
-      simp only [victimsAreArray, hk]
-      have : ¬ 2 ≤ k := by omega
-      simp [this]
     by_cases hst : st = true
-    · simp only [hst, if_true, harr, Bool.false_eq_true, if_false]
+    · simp only [hst, if_true]
       by_cases hemp : H.isEmpty = true
       · rw [if_pos hemp]
         obtain ⟨r', h1, hf⟩ := accrue_ok hP.full hx.lt hx.learning (-10)
         exact ⟨⟨w', r', t'⟩, by simp [h1, Except.map], hf⟩
       · rw [if_neg hemp]
         obtain ⟨r', h1, hf⟩ := foldE_ok
-          (if cfg.which == .predatorPrey then preyKill cfg w' x.1 else teamKill w' x.1)
+          (if cfg.which == .predatorPrey then preyKill cfg w' x.1 else teamKill cfg w' x.1)
           (LedgerFull cfg w0.n) (fun v => v < w0.n)
-          (fun r v hr hv => kill_ok w' x.1 hx.lt hx.learning hall hw r v hr hv) H p.r hP.full hH
+          (fun r v hr hv => kill_ok w' x.1 hx.lt hx.learning r v hr hv) H p.r hP.full hH
         exact ⟨⟨w', r', t'⟩, by simp only [h1, Except.map], hf⟩
     · simp only [hst, Bool.false_eq_true, if_false]
       exact ⟨⟨w', p.r, t'⟩, rfl, hP.full⟩
@@ -186,11 +179,10 @@ theorem entropy1_ok {cfg : Cfg} {w0 : World} (p : PS) (x : Aid × Act) (hP : PSO
 
 theorem stepBattle_ok {cfg : Cfg} {w0 : World} (hcfg : CfgOK w0)
     (hw : cfg.which = .teamBattle ∨ cfg.which = .predatorPrey)
-    (hall : cfg.which = .teamBattle → ∀ v < w0.n, cfg.isLearning v = true)
     (p : PS) (acts : List (Aid × Act)) (hP : PSOK cfg w0 p) (hA : ∀ x ∈ acts, ItemOK cfg w0 x) :
     ∃ p', stepBattle cfg p acts = .ok p' := by
   obtain ⟨p1, h1, hP1⟩ := foldE_ok (attack1 cfg) (PSOK cfg w0) (ItemOK cfg w0)
-    (attack1_ok hcfg hw hall) acts p hP hA
+    (attack1_ok hcfg hw) acts p hP hA
   obtain ⟨p2, h2, hP2⟩ := foldE_ok moveGuarded1 (PSOK cfg w0) (ItemOK cfg w0)
     (moveGuarded1_ok hcfg) acts p1 hP1 hA
   obtain ⟨p3, h3, _⟩ := foldE_ok entropy1 (PSOK cfg w0) (ItemOK cfg w0) entropy1_ok acts p2 hP2 hA
@@ -214,14 +206,23 @@ theorem moveAccA_ok {cfg : Cfg} {w0 : World} (hcfg : CfgOK w0) (p : PS) (a : Aid
   exact ⟨p', h1, ⟨(xinvA_move hcfg hP.x ha hsp h1).2, hf⟩⟩
 
 theorem multi1_ok {cfg : Cfg} {w0 : World} (hcfg : CfgOK w0) (p : PS) (x : Aid × Act) (hP : PSOKA cfg w0 p)
-    (hx : ItemOK cfg w0 x) : ∃ p', multi1 p x = .ok p' ∧ PSOKA cfg w0 p' := by
+    (hx : ItemOK cfg w0 x) : ∃ p', multi1 cfg p x = .ok p' ∧ PSOKA cfg w0 p' := by
   have hn : p.w.n = w0.n := sframe_n hP.x.frame
   obtain ⟨p1, h1, hP1⟩ := moveAccA_ok hcfg p x.1 x.2.move hP hx.lt hx.learning hx.move
-  obtain ⟨r', h2, hf⟩ := accrue_ok hP1.full hx.lt hx.learning (-1)
-  refine ⟨⟨p1.w, r', p1.t⟩, ?_, ⟨hP1.x, hf⟩⟩
+  have hn1 : p1.w.n = w0.n := sframe_n hP1.x.frame
+  have hd : multiDone cfg p1.w x.1 = .ok (decide (p1.w.posOf x.1 = p1.w.posOf cfg.target)) := by
+    simp only [multiDone, hn1, hx.lt, if_true]
   unfold multi1
   rw [if_neg (Nat.not_le.mpr (by rw [hn]; exact hx.lt))]
-  simp only [h1, h2, Except.map]
+  simp only [h1, hd]
+  cases decide (p1.w.posOf x.1 = p1.w.posOf cfg.target) with
+  | true =>
+    obtain ⟨r1, h2, hf1⟩ := accrue_ok hP1.full hx.lt hx.learning 100
+    obtain ⟨r2, h3, hf2⟩ := accrue_ok hf1 hx.lt hx.learning (-1)
+    exact ⟨⟨p1.w, r2, p1.t⟩, by simp only [if_true, h2, h3, Except.map], ⟨hP1.x, hf2⟩⟩
+  | false =>
+    obtain ⟨r2, h3, hf2⟩ := accrue_ok hP1.full hx.lt hx.learning (-1)
+    exact ⟨⟨p1.w, r2, p1.t⟩, by simp only [Bool.false_eq_true, if_false, h3, Except.map], ⟨hP1.x, hf2⟩⟩
 
 /-- the done components `TrafficCorridorSimulation.step` consults answer for the acting agent -/
 def DoneTotalFor (cfg : Cfg) (a : Aid) : Prop :=
@@ -302,29 +303,31 @@ theorem stepMaze_ok {cfg : Cfg} {w0 : World} (hcfg : CfgOK w0) (p : PS) (acts : 
 /-! ## every class -/
 
 /-- **the hypotheses under which `step` must not raise**: every item of the action dict is a point of
-the declared action space of a learning agent of the simulation; `TeamBattleSim` /
-`PredatorPreyResourcesSim`: nobody asks for two or more attacks at once (finding C02-E2) and, in
-`TeamBattleSim`, every agent is a learning agent (finding C02-E3); `MazeNavigationSim`: the dict has
-an item for the navigator; `TrafficCorridorSimulation`: the done components answer for the acting
-agents -/
+the declared action space of a learning agent of the simulation (`ItemOK`: the agent exists, is a
+learning agent — it has a reward entry —, its move is in the declared `move` space and, if it can
+attack, its attack in the declared `attack` space) — nothing more for `TeamBattleSim`,
+`PredatorPreyResourcesSim` (since the repairs afc90bd, c275832: any number of simultaneous attacks,
+victims with or without reward entry) and `MultiMazeNavigationSim`; `MazeNavigationSim`: the dict
+has an item for the navigator (the class reads `action_dict['navigator']` unconditionally);
+`TrafficCorridorSimulation`: the done components answer for the acting agents (its `step` calls
+`self.get_done(agent_id)`; a `TargetAgentOverlapDone` without an entry for the agent raises) -/
 def StepOK (cfg : Cfg) (w0 : World) (acts : List (Aid × Act)) : Prop :=
   (∀ x ∈ acts, ItemOK cfg w0 x) ∧
-  (cfg.which = .teamBattle → ∀ v < w0.n, cfg.isLearning v = true) ∧
   (cfg.which = .mazeNav → ∃ act, acts.lookup cfg.navigator = some act ∧ ItemOK cfg w0 (cfg.navigator, act)) ∧
   (cfg.which = .traffic → ∀ x ∈ acts, DoneTotalFor cfg x.1)
 
 theorem stepPS_ok {cfg : Cfg} {w0 : World} (hcfg : CfgOK w0) (p : PS) (acts : List (Aid × Act))
     (hI : Inv cfg w0 p.w) (hL : LedgerFull cfg w0.n p.r) (hS : StepOK cfg w0 acts) :
     ∃ p', stepPS cfg p acts = .ok p' := by
-  obtain ⟨hitems, hall, hmaze, htr⟩ := hS
+  obtain ⟨hitems, hmaze, htr⟩ := hS
   unfold stepPS
   unfold Inv at hI
   cases hc : cfg.which <;> rw [hc] at hI <;> simp only at hI ⊢
-  · exact stepBattle_ok hcfg (Or.inl hc) hall p acts ⟨hI, hL⟩ hitems
-  · exact stepBattle_ok hcfg (Or.inr hc) hall p acts ⟨hI, hL⟩ hitems
+  · exact stepBattle_ok hcfg (Or.inl hc) p acts ⟨hI, hL⟩ hitems
+  · exact stepBattle_ok hcfg (Or.inr hc) p acts ⟨hI, hL⟩ hitems
   · obtain ⟨act, hl, hx⟩ := hmaze hc
     exact stepMaze_ok hcfg p acts ⟨hI, hL⟩ act hl hx
-  · obtain ⟨p', h, _⟩ := foldE_ok multi1 (PSOKA cfg w0) (ItemOK cfg w0) (multi1_ok hcfg) acts p ⟨hI, hL⟩ hitems
+  · obtain ⟨p', h, _⟩ := foldE_ok (multi1 cfg) (PSOKA cfg w0) (ItemOK cfg w0) (multi1_ok hcfg) acts p ⟨hI, hL⟩ hitems
     exact ⟨p', h⟩
   · obtain ⟨p', h, _⟩ := foldE_ok (traffic1 cfg) (PSOKA cfg w0) (fun x => ItemOK cfg w0 x ∧ DoneTotalFor cfg x.1)
       (traffic1_ok hcfg) acts p ⟨hI, hL⟩ (fun x hx => ⟨hitems x hx, htr hc x hx⟩)
@@ -360,13 +363,17 @@ theorem accrue_map_rel {r : Ledger} {a : Aid} {v : Int} {w : World} {t : Tape} {
   obtain ⟨r', hr, he⟩ := map_ok h
   subst he; exact hR.acc _ _ _ _ hr
 
-theorem teamKill_rel (w : World) (a : Aid) (r : Ledger) (v : Aid) (r' : Ledger)
-    (h : teamKill w a r v = .ok r') : R r r' := by
+theorem teamKill_rel (cfg : Cfg) (w : World) (a : Aid) (r : Ledger) (v : Aid) (r' : Ledger)
+    (h : teamKill cfg w a r v = .ok r') : R r r' := by
   unfold teamKill at h
   split at h
   · split at h
     · cases h
-    · rename_i r1 h1; exact hR.trans _ _ _ (hR.acc _ _ _ _ h1) (hR.acc _ _ _ _ h)
+    · rename_i r1 h1
+      refine hR.trans _ _ _ ?_ (hR.acc _ _ _ _ h)
+      split at h1
+      · exact hR.acc _ _ _ _ h1
+      · simp only [Except.ok.injEq] at h1; subst h1; exact hR.refl r
   · simp only [Except.ok.injEq] at h; subst h; exact hR.refl r
 
 theorem preyKill_rel (cfg : Cfg) (w : World) (a : Aid) (r : Ledger) (v : Aid) (r' : Ledger)
@@ -392,16 +399,14 @@ theorem attack1_rel (cfg : Cfg) (p : PS) (x : Aid × Act) (p' : PS) (h : attack1
       · rename_i status H w' t' _
         split at h
         · split at h
-          · cases h
-          · split at h
-            · exact accrue_map_rel hR h
-            · obtain ⟨r', hr, he⟩ := map_ok h
-              subst he
-              refine foldE_rel _ R hR.refl hR.trans ?_ H p.r r' hr
-              intro r v r1 h1
-              split at h1
-              · exact preyKill_rel hR cfg w' x.1 r v r1 h1
-              · exact teamKill_rel hR w' x.1 r v r1 h1
+          · exact accrue_map_rel hR h
+          · obtain ⟨r', hr, he⟩ := map_ok h
+            subst he
+            refine foldE_rel _ R hR.refl hR.trans ?_ H p.r r' hr
+            intro r v r1 h1
+            split at h1
+            · exact preyKill_rel hR cfg w' x.1 r v r1 h1
+            · exact teamKill_rel hR cfg w' x.1 r v r1 h1
         · simp only [Except.ok.injEq] at h; subst h; exact hR.refl _
     · simp only [Except.ok.injEq] at h; subst h; exact hR.refl _
 
@@ -425,13 +430,25 @@ theorem moveGuarded1_rel (p : PS) (x : Aid × Act) (p' : PS) (h : moveGuarded1 p
 theorem entropy1_rel (p : PS) (x : Aid × Act) (p' : PS) (h : entropy1 p x = .ok p') : R p.r p'.r :=
   accrue_map_rel hR h
 
-theorem multi1_rel (p : PS) (x : Aid × Act) (p' : PS) (h : multi1 p x = .ok p') : R p.r p'.r := by
+theorem multi1_rel (cfg : Cfg) (p : PS) (x : Aid × Act) (p' : PS) (h : multi1 cfg p x = .ok p') :
+    R p.r p'.r := by
   unfold multi1 at h
   split at h
   · cases h
   · split at h
     · cases h
-    · rename_i p1 hm; exact hR.trans _ _ _ (moveAcc_rel hR hm) (accrue_map_rel hR h)
+    · rename_i p1 hm
+      split at h
+      · cases h
+      · split at h
+        · cases h
+        · rename_i r1 h1
+          obtain ⟨r2, h2, he⟩ := map_ok h
+          subst he
+          refine hR.trans _ _ _ (moveAcc_rel hR hm) (hR.trans _ _ _ ?_ (hR.acc _ _ _ _ h2))
+          split at h1
+          · exact hR.acc _ _ _ _ h1
+          · simp only [Except.ok.injEq] at h1; subst h1; exact hR.refl _
 
 theorem traffic1_rel (cfg : Cfg) (p : PS) (x : Aid × Act) (p' : PS) (h : traffic1 cfg p x = .ok p') :
     R p.r p'.r := by
@@ -487,7 +504,7 @@ theorem stepPS_rel {cfg : Cfg} {p p' : PS} {acts : List (Aid × Act)} (h : stepP
           split at h1
           · exact hR.acc _ _ _ _ h1
           · simp only [Except.ok.injEq] at h1; subst h1; exact hR.refl _
-  · exact hPS _ (multi1_rel hR) _ _ h
+  · exact hPS _ (multi1_rel hR cfg) _ _ h
   · exact hPS _ (traffic1_rel hR cfg) _ _ h
 
 end rel
